@@ -14,6 +14,7 @@ class Built:
         self.model = []             # per scope: list of model records (ordered)
         self.records = []           # (scope index, record object, model record) in creation order
         self.stats = Counter()
+        self.no_exclude = False
 
     # expected content in the same shape as canon.canon()
     def expected(self):
@@ -158,6 +159,7 @@ def build(recipe, inherit=True, on_step=None):
     """Interpret the recipe with the library. Raises whatever the library raises."""
     from prov.model import ProvDocument
     b = Built()
+    b.no_exclude = bool(recipe.get("no_exclude"))
     b.doc = ProvDocument()
     b.scopes = [b.doc]
     b.model = [[]]
@@ -188,7 +190,22 @@ def apply_op(b, op, inherit=True):
         if uri in b.scope_ids or len(b.scopes) > 3:
             b.stats["skipped:bundle"] += 1
             return
-        nb = b.doc.bundle(spell(b, 0, name))
+        how = op[2] if len(op) > 2 else "bundle"
+        if how == "add_bundle":
+            # a free-standing bundle attached afterwards: its identifier is only known in its own scope
+            from prov.model import ProvBundle
+            from prov.identifier import Namespace, QualifiedName
+            qn = QualifiedName(Namespace(name["prefix"] or "fb", name["ns"]), name["local"])
+            if not b.no_exclude and any(str(x.identifier) == str(qn) for x in b.doc.bundles):
+                # known finding F-C01-1: two bundles printing the same identifier for different URIs share
+                # one key in PROV-JSON; avoided by construction so that the search continues behind it
+                b.stats["excluded_by_finding:F-C01-1"] += 1
+                return
+            nb = ProvBundle(identifier=qn)
+            b.doc.add_bundle(nb)
+            b.stats["op:add_bundle"] += 1
+        else:
+            nb = b.doc.bundle(spell(b, 0, name))
         b.scopes.append(nb)
         b.scope_ids.append(uri)
         b.model.append([])
